@@ -108,71 +108,38 @@ def edge_cover_paths(g):
 
 
 def edge_cover_tours(g, maxlen=40):
-    """Edge cover with few, long paths: each tour starts at an initial node (reached edges first),
-    prefers an edge not yet covered, otherwise moves to the nearest state that still has one, and
-    ends after maxlen edges or when no uncovered edge is reachable.  Every reachable edge, parallel
-    edges included, lies on at least one tour."""
-    from collections import deque
+    """Edge cover with few, long paths.  States are taken in breadth-first order; while a state has an
+    edge not yet covered a tour starts there (shortest prefix from an initial state), then keeps
+    following uncovered edges; where the current state has none left it may hop over up to three
+    covered edges towards a successor that has.  A tour ends after maxlen edges or when stuck.
+    Every reachable edge, parallel edges included, lies on at least one tour.  Linear in the graph."""
     parent = _bfs_tree(g)
-    todo = {n: list(range(len(outs))) for n, outs in g.succ.items() if n in parent and outs}
-    todo = {n: v for n, v in todo.items() if v}
-
-    def nearest(src):
-        """shortest (nodes, labs) from src to a state with an uncovered out-edge, or None"""
-        if src in todo:
-            return [src], []
-        seen = {src: None}
-        dq = deque([src])
-        while dq:
-            n = dq.popleft()
-            for lab, d in g.succ.get(n, ()):
-                if d in seen:
-                    continue
-                seen[d] = (n, lab)
-                if d in todo:
-                    nodes, labs = [d], []
-                    while seen[d] is not None:
-                        d, lab2 = seen[d]
-                        nodes.append(d)
-                        labs.append(lab2)
-                    return nodes[::-1], labs[::-1]
-                dq.append(d)
-        return None
-    while todo:
-        # start: the initial node from which an uncovered edge is nearest (else a BFS prefix)
-        start = None
-        for i in g.init:
-            r = nearest(i)
-            if r is not None and (start is None or len(r[1]) < len(start[1])):
-                start = r
-        if start is None:
-            n = next(iter(todo))
-            start = _prefix(parent, n)
-        nodes, labs = list(start[0]), list(start[1])
-        progressed = False
-        while True:
-            n = nodes[-1]
-            if n in todo:
-                k = todo[n].pop()
-                if not todo[n]:
-                    del todo[n]
-                lab, d = g.succ[n][k]
+    todo = {n: list(range(len(outs) - 1, -1, -1)) for n, outs in g.succ.items() if n in parent and outs}
+    for start in list(parent):              # insertion order of the BFS tree = breadth-first order
+        while todo.get(start):
+            nodes, labs = _prefix(parent, start)
+            npre = len(labs)
+            hops = 0
+            while len(labs) - npre < maxlen:
+                n = nodes[-1]
+                if todo.get(n):
+                    k = todo[n].pop()
+                    lab, d = g.succ[n][k]
+                    hops = 0
+                else:
+                    outs = g.succ.get(n, ())
+                    nxt = [(lab, d) for lab, d in outs if todo.get(d) and d != n]
+                    if not nxt or hops >= 3:
+                        break
+                    lab, d = nxt[0]
+                    hops += 1
                 nodes.append(d)
                 labs.append(lab)
-                progressed = True
-                if len(labs) >= maxlen:
-                    break
-                continue
-            if len(labs) >= maxlen:
-                break
-            r = nearest(n)
-            if r is None or len(labs) + len(r[1]) >= maxlen + 10:
-                break
-            nodes.extend(r[0][1:])
-            labs.extend(r[1])
-        if not progressed:      # cannot happen (start ends at a state with an uncovered edge)
-            break
-        yield EPath(nodes, labs)
+            while hops and labs:            # drop trailing hops that led nowhere
+                nodes.pop()
+                labs.pop()
+                hops -= 1
+            yield EPath(nodes, labs)
 
 
 def random_walks(g, num, depth, rng):
@@ -475,12 +442,15 @@ def traceback_str():
     return traceback.format_exc()[-1500:]
 
 
-def replay_paths(chk, g, paths, make_driver, label, module, params, max_viol=5):
-    """spec -> code for every path; reports divergences as violations with a self-contained replay."""
+def replay_paths(chk, g, paths, make_driver, label, module, params, max_viol=5, state_map=None):
+    """spec -> code for every path; reports divergences as violations with a self-contained replay.
+    state_map: optional abstraction applied to the model states when the driver observes less."""
     n = 0
     for p in paths:
         acts = path_actions(g, p)
         states = [g.nodes[i] for i in p]
+        if state_map:
+            states = [state_map(s) for s in states]
         failed, dif, steps = step_compare(make_driver, acts, states)
         n += 1
         if failed is not None:
